@@ -63,6 +63,9 @@ def gen_case(rng, tier):
     q = rng.choice([4, 8, 16, 32, 64])
     metric = rng.randint(0, 1)
     cmds = ['new %d %d %d 0' % (dim, q, metric)]
+    if rng.random() < 0.25:
+        # a file name with characters that need escaping in JSON (the name is one of the exported options)
+        cmds[0] += ' ' + rng.choice([b'\x01', b'\x7f', b'a\x1fb', '\u00e9\u4e2d'.encode(), b'q"uote', b'back\\slash', b'\x0b\x07']).hex()
     spec = {}
     n = rng.choice([0, 1, 2, 3, 6, 12])
     for id_ in rng.sample([1, 2, 3, 9, 10, 11, 99, 100, 2 ** 32, 2 ** 53 + 1, 2 ** 64 - 1, 12345678901234567890] + list(range(1000, 1100)), n):
